@@ -471,15 +471,16 @@ open LayerChain in
     on the model's own `Network.forward` / `Network.backward` folds, the composition and its reverse-mode
     composition; when every backward function is the transposed Jacobian at the point it is evaluated at,
     the last gradient handed on is the gradient of the objective with respect to the network input, and the
-    weight gradient recorded for the first layer is that layer's weight-gradient function of the gradient the
-    rest of the network handed back (for any later layer: the sub-chain that starts there) -/
+    weight and bias gradients recorded are, layer by layer (`allGrads`, last layer first), each layer's gradient
+    function applied to the gradient the layers after it handed back -/
 theorem layer_sequence_network_gradient {a : Idx} {ea : Enc a} {c : Idx} {ec : Enc c} (n : Network ℝ) (ch : Chain a ea c ec)
     (hn : n.layers = layers ch) (hc : n.connect = []) (hl : n.loopbacks = []) (x : V a.T) (hr : Real ch x)
     (hok : (gnet ch).Ok x) (ℓ : V c.T → ℝ) (g : V c.T) (hg : IsGrad ℓ ((gnet ch).fwd x) g) :
     ∃ t ws bs gs,
       n.forward (ea x) = .ok t ∧ t.act.getLast? = some (ec ((gnet ch).fwd x)) ∧
       n.backward (ec g) t = .ok (ws, bs, gs) ∧ gs.getLast? = some (ea ((gnet ch).bwd x g)) ∧
-      IsGrad (ℓ ∘ (gnet ch).fwd) x ((gnet ch).bwd x g) ∧ FirstGrads ch x g ws bs :=
+      IsGrad (ℓ ∘ (gnet ch).fwd) x ((gnet ch).bwd x g) ∧ FirstGrads ch x g ws bs ∧
+      ws = (allGrads ch x g).map (·.1) ∧ bs = (allGrads ch x g).map (·.2) :=
   network_gradient n ch hn hc hl x hr hok ℓ g hg
 
 open Network ChainLinks ConvVJP ConvBridge ConvNet Flat3 in
@@ -633,7 +634,7 @@ theorem conv_pool_mlp_gradients {c0 h0 w0 f1 kh1 kw1 h1 w1 h2 w2 k : ℕ} (n : N
   have hpar := LayerChain.parameter_gradient (fun K' => convFn l1 a1 K' h0 w0 h1 w1 x) K1
     (convBwdKer l1 a1 K1 h0 w0 h1 w1 x) (vjp_conv_kernels l1 a1 K1 hl1 ha1 x hk1) (gnet tail) htailok ℓ g
     (by rw [hfwdK K1 x]; exact hg)
-  refine ⟨t, ws, bs, gs, (gnet ch).bwd x g, _, h1', ?_, h3', h4', h6'.1, ?_, ?_⟩
+  refine ⟨t, ws, bs, gs, (gnet ch).bwd x g, _, h1', ?_, h3', h4', h6'.1.1, ?_, ?_⟩
   · rw [h2', hfwd]; rfl
   · rw [← hfwd]; exact h5'
   · have := hpar.1
@@ -733,7 +734,7 @@ theorem conv_conv_mlp_gradients {c0 h0 w0 f1 kh1 kw1 h1 w1 f2 kh2 kw2 h2 w2 k : 
   have hpar := LayerChain.parameter_gradient (fun K' => convFn l1 a1 K' h0 w0 h1 w1 x) K1
     (convBwdKer l1 a1 K1 h0 w0 h1 w1 x) (vjp_conv_kernels l1 a1 K1 hl1 ha1 x hk1) (gnet tail) htailok ℓ g
     (by rw [hfwdK K1 x]; exact hg)
-  refine ⟨t, ws, bs, gs, (gnet ch).bwd x g, _, h1', ?_, h3', h4', h6'.1, ?_, ?_⟩
+  refine ⟨t, ws, bs, gs, (gnet ch).bwd x g, _, h1', ?_, h3', h4', h6'.1.1, ?_, ?_⟩
   · rw [h2', hfwd]; rfl
   · rw [← hfwd]; exact h5'
   · have := hpar.1
